@@ -38,10 +38,13 @@ typedef uint8_t bval_t; /* not used by the scalar contracts */
 #define BV(k) (((const bval_t *)values)[k])
 #define BMIN (*(const bval_t *)builder->min_value)
 #define BMAX (*(const bval_t *)builder->max_value)
-#ifdef CQV_IS_FP
-#define NOTNAN(x) ((x) == (x))
+/* BLEQ = the specification order, BCOUNTS(x) = x is a value the bounds must cover */
+#if defined(CQV_IS_FP)
+#define BLEQ(a, b) ((a) <= (b))
+#define BCOUNTS(x) ((x) == (x))
 #else
-#define NOTNAN(x) 1
+#define BLEQ(a, b) ((a) <= (b))
+#define BCOUNTS(x) 1
 #endif
 
 /* ghosts: arbitrary element index; pre-state of the builder */
@@ -74,3 +77,184 @@ void h_add_nulls(void) {
   __CPROVER_assert(b == NULL || b->null_count == old + c, "null_count accumulates the nulls added");
   CQV_CANARY("add_nulls returns");
 }
+
+#ifdef CQV_IS_FP
+/* Bounded lemma with a concrete call sequence (real create + one add_values of 1..3 values): the bounds cover
+ * every non-NaN value in IEEE order and are not NaN.  Scalar inputs => direct native replay. */
+static bval_t fp_from_bits(uint64_t b) {
+  bval_t v; uint8_t *q = (uint8_t *)&v;
+  for (unsigned i = 0; i < sizeof(bval_t); i++) q[i] = (uint8_t)(b >> (8 * i));
+  return v;
+}
+void h_builder_fp_seq(void) {
+  uint64_t v0bits = nondet_u64(), v1bits = nondet_u64(), v2bits = nondet_u64();
+  int64_t n = nondet_i64();
+  __CPROVER_assume(n >= 1 && n <= 3);
+  carquet_statistics_builder_t *b = carquet_statistics_builder_create((carquet_physical_type_t)CQV_BT, 0);
+  __CPROVER_assume(b != NULL);
+  bval_t vals[3] = { fp_from_bits(v0bits), fp_from_bits(v1bits), fp_from_bits(v2bits) };
+  carquet_status_t st = carquet_statistics_add_values(b, vals, n);
+  __CPROVER_assert(st == CARQUET_OK, "add_values succeeds");
+  _Bool any_number = 0;
+  for (int i = 0; i < 3; i++) {
+    if (i < n && vals[i] == vals[i]) {
+      any_number = 1;
+      __CPROVER_assert(b->has_min && b->has_max && b->min_len == sizeof(bval_t) && b->max_len == sizeof(bval_t), "bounds exist");
+      bval_t mn = *(bval_t *)b->min_value, mx = *(bval_t *)b->max_value;
+      __CPROVER_assert(mn <= vals[i], "min <= every non-NaN value (IEEE)");
+      __CPROVER_assert(vals[i] <= mx, "every non-NaN value <= max (IEEE)");
+    }
+  }
+  if (any_number) CQV_CANARY("fp seq: some number"); else CQV_CANARY("fp seq: only NaN");
+  CQV_CANARY("fp seq end");
+}
+#endif
+
+#if CQV_BT == 1 || CQV_BT == 2 || CQV_BT == 4 || CQV_BT == 5
+/* carquet_statistics_compare / carquet_statistics_range_overlaps: no false negatives (scalar types, IEEE order
+ * for floats).  Statistics fields are exact-size objects of the type's width; each may be absent. */
+static parquet_statistics_t *mk_stats(bval_t mn, bval_t mx, unsigned present) {
+  parquet_statistics_t *s = malloc(sizeof(*s));
+  __CPROVER_assume(s != NULL);
+  s->min_value = NULL; s->max_value = NULL;
+  s->min_value_len = nondet_i32(); s->max_value_len = nondet_i32();
+  if (present & 1) { s->min_value = malloc(sizeof(bval_t)); __CPROVER_assume(s->min_value != NULL); *(bval_t *)s->min_value = mn; s->min_value_len = sizeof(bval_t); }
+  if (present & 2) { s->max_value = malloc(sizeof(bval_t)); __CPROVER_assume(s->max_value != NULL); *(bval_t *)s->max_value = mx; s->max_value_len = sizeof(bval_t); }
+  return s;
+}
+static bval_t hb_from_bits(uint64_t b) {
+  bval_t v; uint8_t *q = (uint8_t *)&v;
+  for (unsigned i = 0; i < sizeof(bval_t); i++) q[i] = (uint8_t)(b >> (8 * i));
+  return v;
+}
+void h_stats_compare(void) {
+  uint64_t minbits = nondet_u64(), maxbits = nondet_u64(), vbits = nondet_u64();
+  unsigned present = nondet_unsigned();
+  bval_t mn = hb_from_bits(minbits), mx = hb_from_bits(maxbits);
+  parquet_statistics_t *s = mk_stats(mn, mx, present);
+  bval_t *value = malloc(sizeof(bval_t));
+  __CPROVER_assume(value != NULL);
+  *value = hb_from_bits(vbits);
+  int result = nondet_int();
+  carquet_status_t st = carquet_statistics_compare(s, (carquet_physical_type_t)CQV_BT, value, sizeof(bval_t), &result);
+  __CPROVER_assert(st == CARQUET_OK, "compare succeeds");
+  /* the value occurs in the data and the statistics are true bounds => it must be reported 'in range' */
+  _Bool bounds = (!(present & 1) || mn <= *value) && (!(present & 2) || *value <= mx);
+  if (bounds) { __CPROVER_assert(result == 0, "a value inside true bounds is in range"); CQV_CANARY("compare: in range"); }
+  if (result != 0) CQV_CANARY("compare: can be out of range");
+  CQV_CANARY("compare end");
+}
+void h_range_overlaps(void) {
+  uint64_t minbits = nondet_u64(), maxbits = nondet_u64(), qminbits = nondet_u64(), qmaxbits = nondet_u64(), xbits = nondet_u64();
+  unsigned present = nondet_unsigned();
+  bval_t mn = hb_from_bits(minbits), mx = hb_from_bits(maxbits), x = hb_from_bits(xbits);
+  parquet_statistics_t *s = mk_stats(mn, mx, present);
+  bval_t *qmin = NULL, *qmax = NULL;
+  if (present & 4) { qmin = malloc(sizeof(bval_t)); __CPROVER_assume(qmin != NULL); *qmin = hb_from_bits(qminbits); }
+  if (present & 8) { qmax = malloc(sizeof(bval_t)); __CPROVER_assume(qmax != NULL); *qmax = hb_from_bits(qmaxbits); }
+  bool ov = nondet_bool();
+  carquet_status_t st = carquet_statistics_range_overlaps(s, (carquet_physical_type_t)CQV_BT, qmin, qmax, sizeof(bval_t), &ov);
+  __CPROVER_assert(st == CARQUET_OK, "range_overlaps succeeds");
+  /* a value x inside the true bounds and inside the query range exists => overlap must be reported */
+  _Bool in_stats = (!(present & 1) || mn <= x) && (!(present & 2) || x <= mx);
+  _Bool in_query = (qmin == NULL || *qmin <= x) && (qmax == NULL || x <= *qmax);
+  if (in_stats && in_query) { __CPROVER_assert(ov, "overlap reported when a value lies in both ranges"); CQV_CANARY("overlaps: witness"); }
+  if (!ov) CQV_CANARY("overlaps: can be false");
+  CQV_CANARY("overlaps end");
+}
+#endif
+
+#if CQV_BT == 7
+/* FIXED_LEN_BYTE_ARRAY wider than the 256-byte min/max storage: rejected, builder untouched, nothing written */
+void h_flba_wide(void) {
+  carquet_statistics_builder_t *b = malloc(sizeof(*b));
+  __CPROVER_assume(b != NULL);
+  int32_t tl = nondet_i32();
+  __CPROVER_assume(tl > 256);
+  b->type = CARQUET_PHYSICAL_FIXED_LEN_BYTE_ARRAY;
+  b->type_length = tl;
+  carquet_statistics_builder_t old = *b;
+  int64_t n = nondet_i64();
+  __CPROVER_assume(n >= 1 && n <= CQV_MAXN);
+  /* the caller's buffer: one element is enough to expose any access */
+  uint8_t *values = malloc((size_t)tl);
+  __CPROVER_assume(values != NULL);
+  carquet_status_t st = carquet_statistics_add_values(b, values, n);
+  __CPROVER_assert(st == CARQUET_ERROR_INVALID_ARGUMENT, "type_length > 256 is rejected");
+  __CPROVER_assert(b->has_min == old.has_min && b->has_max == old.has_max && b->min_len == old.min_len && b->max_len == old.max_len &&
+                   b->num_values == old.num_values && b->null_count == old.null_count, "builder state unchanged");
+  size_t k = nondet_size_t();
+  __CPROVER_assume(k < sizeof(b->min_value));
+  __CPROVER_assert(b->min_value[k] == old.min_value[k] && b->max_value[k] == old.max_value[k], "min/max storage untouched");
+  CQV_CANARY("flba wide end");
+}
+#endif
+
+#if CQV_BT == 6
+/* BYTE_ARRAY, concrete sequence on a fresh real builder: 1..3 values of arbitrary length, then the real
+ * carquet_statistics_build.  Property: every bound that is REPORTED is true.
+ *  - some value longer than the 256-byte storage  => no min/max reported at all;
+ *  - all values at most 8 bytes (exact memcmp/memcpy model) => reported min/max enclose every value
+ *    (unsigned lexicographic, prefix first) and carry their own lengths. */
+#define ML 8
+static int lex_cmp(const uint8_t *a, size_t al, const uint8_t *b, size_t bl) {
+  for (size_t i = 0; i < ML; i++) {
+    if (i >= al || i >= bl) break;
+    if (a[i] != b[i]) return a[i] < b[i] ? -1 : 1;
+  }
+  return (al > bl) - (al < bl);
+}
+void h_byte_arrays_seq(void) {
+  int64_t n = nondet_i64();
+  __CPROVER_assume(n >= 1 && n <= 3);
+  int32_t l0 = nondet_i32(), l1 = nondet_i32(), l2 = nondet_i32();
+  __CPROVER_assume(l0 >= 0 && l1 >= 0 && l2 >= 0 && l0 <= (1 << 20) && l1 <= (1 << 20) && l2 <= (1 << 20));
+  carquet_byte_array_t v[3];
+  v[0].length = l0; v[1].length = l1; v[2].length = l2;
+  for (int i = 0; i < 3; i++) { v[i].data = malloc((size_t)v[i].length); __CPROVER_assume(v[i].data != NULL); }
+  carquet_statistics_builder_t *b = carquet_statistics_builder_create(CARQUET_PHYSICAL_BYTE_ARRAY, 0);
+  __CPROVER_assume(b != NULL);
+  carquet_status_t st = carquet_statistics_add_byte_arrays(b, v, n);
+  __CPROVER_assert(st == CARQUET_OK && b->num_values == n, "add_byte_arrays succeeds and counts every value");
+  parquet_statistics_t out;
+  st = carquet_statistics_build(b, NULL, &out);
+  __CPROVER_assert(st == CARQUET_OK, "build succeeds");
+  _Bool any_long = 0, all_short = 1;
+  for (int i = 0; i < 3; i++) if (i < n) { if (v[i].length > 256) any_long = 1; if (v[i].length > ML) all_short = 0; }
+  if (any_long) {
+    __CPROVER_assert(out.min_value == NULL && out.max_value == NULL && out.min_value_len == 0 && out.max_value_len == 0,
+                     "a value too long for the builder: no min/max reported");
+    CQV_CANARY("byte arrays: long value");
+  }
+  if (all_short && out.min_value != NULL && out.max_value != NULL) {
+    for (int i = 0; i < 3; i++) if (i < n) {
+      __CPROVER_assert(lex_cmp(out.min_value, (size_t)out.min_value_len, v[i].data, (size_t)v[i].length) <= 0, "reported min <= every value (lexicographic)");
+      __CPROVER_assert(lex_cmp(v[i].data, (size_t)v[i].length, out.max_value, (size_t)out.max_value_len) <= 0, "every value <= reported max (lexicographic)");
+    }
+    CQV_CANARY("byte arrays: short values, bounds reported");
+  }
+  __CPROVER_assert(out.has_null_count && out.null_count == 0, "null count reported");
+  CQV_CANARY("byte arrays seq end");
+}
+
+/* carquet_statistics_build on an ARBITRARY builder state: bounds_unknown => nothing reported; a reported bound has
+ * the builder's length; null_count passes through. */
+void h_build(void) {
+  carquet_statistics_builder_t *b = malloc(sizeof(*b));
+  __CPROVER_assume(b != NULL);
+  __CPROVER_assume(b->min_len <= sizeof(b->min_value) && b->max_len <= sizeof(b->max_value));
+  parquet_statistics_t out;
+  carquet_status_t st = carquet_statistics_build(b, NULL, &out);
+  __CPROVER_assert(st == CARQUET_OK, "build succeeds");
+  if (b->bounds_unknown) {
+    __CPROVER_assert(out.min_value == NULL && out.max_value == NULL && out.min_value_len == 0 && out.max_value_len == 0 &&
+                     out.min_deprecated == NULL && out.max_deprecated == NULL, "bounds unknown: no min/max reported in any field");
+    CQV_CANARY("build: bounds unknown");
+  } else {
+    if (out.min_value) { __CPROVER_assert(b->has_min && out.min_value_len == (int32_t)b->min_len, "reported min is the builder's min"); CQV_CANARY("build: min reported"); }
+    if (out.max_value) { __CPROVER_assert(b->has_max && out.max_value_len == (int32_t)b->max_len, "reported max is the builder's max"); CQV_CANARY("build: max reported"); }
+  }
+  __CPROVER_assert(out.has_null_count && out.null_count == b->null_count, "null_count passes through");
+  CQV_CANARY("build end");
+}
+#endif
